@@ -145,3 +145,16 @@ PROPS["C15"] = dict(
                          Coefs={"quick": "CoefsQuick", "thorough": "CoefsThorough"}), timeout={"quick": 600, "thorough": 3000}),
     ],
 )
+
+PROPS["C12"] = dict(
+    family="kde", specdir="kde",
+    technique="TLA+ model of a KDE object (sample, kernel, lazily filled bandwidth, reflecting boundaries) with exact integer Epanechnikov sums over the reflection image list; TLC checks mass/monotonicity laws and emits exact values and the image structure, replayed into stats.KDE for the Epanechnikov, Gaussian and delta kernels",
+    level_text="TLC enumerates 6 samples (thorough 11; weighted and unweighted, repeated values) x 5 bandwidths (thorough 9, 1/4..50) x 8 boundary configurations (thorough 13: none, lower only, upper only, both; touching the data to far away) and computes exact Epanechnikov PDF and CDF on the quarter lattice from below the lower to above the upper boundary, checking non-negativity, monotonicity and that the unclamped CDF formula is exactly 0 / 1 at the boundaries (total mass 1); the binder compares KDE.PDF/CDF for the Epanechnikov kernel with the exact rationals, for the Gaussian kernel with the same image structure evaluated with Erfc/Exp, for the delta kernel with the weighted ECDF, integrates the PDF over every lattice cell (Gauss-Legendre) against CDF differences, and checks Bounds, Scott/Silverman and the lazily filled Bandwidth",
+    level_note="Trusted: TLC, binder comparison code, Go math (Exp, Erfc, Sqrt, Pow) for Gaussian kernel values and the bandwidth rules' irrational factors (the TLA+ side provides their exact rational ingredients). Weighted samples with zero Bandwidth are outside the statement (weighted StdDev is not implemented).",
+    stages=[
+        dict(name="gen", kind="gen", module="KDE.tla", cfg="KDE_gen.cfg",
+             consts=dict(Samples={"quick": "SamplesQuick", "thorough": "SamplesThorough"},
+                         Hs={"quick": "HsQuick", "thorough": "HsThorough"},
+                         Bounds={"quick": "BoundsQuick", "thorough": "BoundsThorough"})),
+    ],
+)
